@@ -528,7 +528,44 @@ def r12_7(ctx):
             ctx.undecided('R12.7', q, 'use of M', fi.node, 'no arithmetic use of M found')
 
 
+def r12_9(ctx):
+    """The adaptive drivers: (a) the constant-step fallback (tol=None) is called with the same start time: t0 is forwarded;
+    (b) the error test is the RMS of the COMPONENTWISE scaled error e_i / d_i, d = tol + tol |x|: the division by d happens
+    inside the norm.  norm(e) / norm(d) weighs all components by the largest one."""
+    fi = ctx.prog.func(S + '._adaptive_step_method.<locals>._method')
+    fn = fi.node
+    params = [a.arg for a in fn.args.args + fn.args.kwonlyargs]
+    calls = [c for c in ast.walk(fn) if isinstance(c, ast.Call) and src(c.func) == 'const_method']
+    for c in calls:
+        if 't0' not in params:
+            continue
+        kw = {k.arg: k.value for k in c.keywords}
+        pos = [src(a) for a in c.args]
+        fwd = ('t0' in kw and src(kw['t0']) == 't0') or (len(pos) >= 7 and pos[6] == 't0')
+        ctx.decide('R12.9', fi.qual, src(c)[:100], fwd, c, 'the fallback starts at the requested t0' if fwd else
+                   'the constant-step fallback is called without t0: with tol=None and t0 != 0 the returned times start at 0 and the number of '
+                   'steps is ceil(t_end/tau) instead of ceil((t_end - t0)/tau)', definite=True)
+    rs = [s_ for s_ in own_nodes(fn) if isinstance(s_, ast.Assign) and src(s_.targets[0]) == 'r'
+          and any(isinstance(c, ast.Call) and (call_name(c) or '').endswith('norm') for c in ast.walk(s_.value))]
+    for s_ in rs:
+        e = resolve.expand(s_.value, s_, keep=('x', 'xhat', 'xnew', 'tol', 'd'))
+        norms = [c for c in ast.walk(e) if isinstance(c, ast.Call) and (call_name(c) or '').endswith('norm')]
+        inside = any(isinstance(b, ast.BinOp) and isinstance(b.op, ast.Div) and any(isinstance(x, ast.Name) and x.id == 'd' for x in ast.walk(b.right))
+                     for c in norms for a in c.args for b in ast.walk(a))
+        d_in_own_norm = any(all(isinstance(x, (ast.Name, ast.Load)) for x in ast.walk(c.args[0])) and src(c.args[0]) == 'd' for c in norms if c.args)
+        if inside and not d_in_own_norm:
+            ctx.met('R12.9', fi.qual, src(s_), s_, 'componentwise scaled error inside the norm')
+        elif d_in_own_norm:
+            ctx.violated('R12.9', fi.qual, src(s_), s_,
+                         'the error is scaled by norm(d) as a whole instead of component by component: when the state has components of very '
+                         'different magnitude the large ones dominate d and errors in the small ones are barely counted -- steps with scaled '
+                         'error far above 1 are accepted')
+        else:
+            ctx.undecided('R12.9', fi.qual, src(s_), s_, 'form of the scaled error not recognised')
+
+
 def run(ctx):
+    r12_9(ctx)
     r12_1(ctx)
     r12_2(ctx)
     r12_3(ctx)
